@@ -39,7 +39,7 @@ def ema_obj(w, state):
 ENTRIES = {}
 
 def entry(pid, name, **kw):
-    ENTRIES.setdefault(pid, []).append(dict(name=name, **kw))
+    ENTRIES.setdefault(pid, []).append(dict(name=name, pid=pid, **kw))
 
 
 # ---- C15 -----------------------------------------------------------------------------------------------
@@ -902,6 +902,21 @@ RESET_ROWS += [
   dict(name="hampel", file="hampel.rs", ty=r"Hampel<T,\s*N>", ctor="with_config", cfg=st(threshold=v("thr")), gen=GN, fns=MEDIAN_DF,
        state=st(median=("obj", "minit", "s")), tmpl="{S.state.median}", init="(@Median.init T n)", binder="(n : nat) (s : mstate T) (thr : T)", imports="Model.Median"),
 ]
+def opt_shapes(vv):
+    """every variant of a symbolic value in which each `Some(..)` is kept or replaced by None (the given shape first)"""
+    if vv[0] == "opt" and vv[1] is not None:
+        return [("opt", x_) for x_ in opt_shapes(vv[1])] + [("opt", None)]
+    if vv[0] == "struct":
+        out = [{}]
+        for k_ in vv[1]:
+            vs = opt_shapes(vv[1][k_]) if k_ != "__sub" else [vv[1][k_]]
+            out = [dict(o_, **{k_: x_}) for o_ in out for x_ in vs]
+        return [("struct", o_) for o_ in out]
+    if vv[0] in ("tuple", "array"):
+        out = [[]]
+        for x_ in vv[1]: out = [o_ + [y_] for o_ in out for y_ in opt_shapes(x_)]
+        return [(vv[0], o_) for o_ in out]
+    return [vv]
 def reset_entries():
     for r in RESET_ROWS:
         name, ty, ctor, cfg, state, tmpl, init, gen = r["name"], r["ty"], r["ctor"], r["cfg"], r["state"], r["tmpl"], r["init"], r["gen"]
@@ -922,8 +937,11 @@ def reset_entries():
         entry("C12", "new_" + name, impl=ctor_impl, fn=ctor, params={} if cfg is None else {"config": cfg}, fns=fns,
               cases=[dict(self=("unit",), lhs=init, vars=binder)], rhs=tmpl.replace("{S.", "{ret."), **common)
         selfv = st(state=state) if (cfg is None or r.get("noconfig")) else st(config=cfg, state=state)
+        # reset from EVERY shape of the state: each Option field of the state present or absent (a reset that is only
+        # right for states with a remembered sample is wrong)
+        shapes = [st(state=s_) if (cfg is None or r.get("noconfig")) else st(config=cfg, state=s_) for s_ in opt_shapes(state)]
         entry("C12", "reset_" + name, impl=gen + r"\s+Reset\s+for\s+" + ty, fn="reset", params={}, fns=fns,
-              cases=[dict(self=selfv, lhs=init, vars=binder)], rhs=tmpl.replace("{S.", "{ret."), **common)
+              cases=[dict(self=sv_, lhs=init, vars=binder) for sv_ in shapes], rhs=tmpl.replace("{S.", "{ret."), **common)
         # guts round trip: into_guts, then from_guts of its result, gives back every field (configuration included)
         fg = dict(fns); fg["Self::from_guts"] = (file_, gen + r"\s+FromGuts\s+for\s+" + ty, "from_guts", ["guts"])
         entry("C20", "guts_" + name, impl=gen + r"\s+IntoGuts\s+for\s+" + ty, fn="into_guts", params={}, fns=fg, roundtrip=True,
@@ -1029,6 +1047,16 @@ for rel_, exp_ in UNSAFE_EXPECT.items():
 # C19 re-checks the bodies of the windowed filters as well (its argument needs them to be the audited, safe code)
 ENTRIES["C19"] = list(ENTRIES["C02"]) + [e_ for e_ in ENTRIES["C03"] if e_["name"] == "moving_mean"] + list(ENTRIES["C04"]) + [e_ for e_ in ENTRIES["C05"] if e_["name"] in ("convolve", "delay")]
 
+# every property re-checks the constructor / reset / guts bodies of the types in its own files (a filter is also entered through
+# reset and guts), and C12 (reset restores the initial state) the reset bodies of the wrappers
+for pid_ in sorted(ENTRIES):
+    if pid_ in ("C12", "C20"): continue
+    own_files = {e_["file"] for e_ in ENTRIES[pid_]}; own_names = {e_["name"] for e_ in ENTRIES[pid_]}
+    for e_ in ENTRIES.get("C12", []) + ENTRIES.get("C20", []):
+        if e_["file"] in own_files and e_["name"].split("_")[0] in ("new", "reset", "guts") and e_["name"] not in own_names:
+            ENTRIES[pid_].append(e_); own_names.add(e_["name"])
+ENTRIES["C12"] += [e_ for e_ in ENTRIES["C20"] if e_["name"].startswith("cache_reset") or e_["name"] == "unit_reset"]
+
 # ---- the modelled third-party crates are the audited versions --------------------------------------------------
 # The models of circular_buffer::CircularBuffer (bounded list), num_traits and dimensioned (map_unsafe, value_unsafe) were read
 # off these versions; Cargo.lock is what the harness builds against (it is copied next to the harness manifest).
@@ -1076,15 +1104,34 @@ def file_inventory(path, whole_text=False):
         except Exception:
             continue
         depth = 0; i = 0
-        for fm in re.finditer(r"[{}]|(?:\bpub(?:\([a-z]+\))?\s+)?(?:unsafe\s+)?(?:const\s+)?fn\s+([A-Za-z_][A-Za-z0-9_]*)", blk):
+        for fm in re.finditer(r"[{}]|(?:\bpub(?:\([a-z]+\))?\s+)?(?:unsafe\s+)?(?:const\s+)?fn\s+(\$?[A-Za-z_][A-Za-z0-9_]*)", blk):
             tok = fm.group(0)
             if tok == "{": depth += 1
             elif tok == "}": depth -= 1
             elif depth == 1:
                 name = fm.group(1); public = tok.lstrip().startswith("pub")
-                if is_trait or public or name in TRAIT_METHOD_NAMES: entry.append("%s :: %s%s" % (head, "pub " if public else "", name))
+                if is_trait or public or name in TRAIT_METHOD_NAMES or name.startswith("$"): entry.append("%s :: %s%s" % (head, "pub " if public else "", name))
     dbg = sorted(norm(m.group(0)) for m in re.finditer(r"\bdebug_assert(?:_eq|_ne)?!\s*\((?:[^()]|\((?:[^()]|\([^()]*\))*\))*\)", txt))
-    inv = {"trait_impls": impls, "use_and_mod": uses, "reset_mut_overrides": len(re.findall(r"\bfn\s+reset_mut\b", txt)), "entry_fns": sorted(entry), "debug_asserts": dbg}
+    # macros: every macro_rules! definition (its name; impls and fns inside its body are seen by the scans above, `$name`
+    # placeholders included) and every item-level invocation; conditional compilation: every cfg / cfg_attr attribute and cfg!()
+    import hashlib as _hl
+    macros = []
+    for m in re.finditer(r"\bmacro_rules!\s*([A-Za-z_][A-Za-z0-9_]*)\s*(?=[\{\(\[])", txt):
+        macros.append("macro_rules! %s" % m.group(1))
+    for m in re.finditer(r"(?m)^[ \t]*((?:[A-Za-z_][A-Za-z0-9_]*::)*[A-Za-z_][A-Za-z0-9_]*)!\s*(?=[\{\(\[])", txt):
+        if m.group(1) in ("macro_rules", "debug_assert", "debug_assert_eq", "debug_assert_ne", "assert", "assert_eq", "assert_ne", "unreachable", "panic", "matches", "vec", "println", "write", "format"): continue
+        if m.start() > 0 and txt[:m.start()].rstrip()[-1:] not in ("", ";", "}", "]"): continue        # expression position
+        o_ = txt[m.end()]
+        try: args_ = norm(_bal(txt, m.end(), o_, {"{": "}", "(": ")", "[": "]"}[o_]))
+        except Exception: args_ = "?"
+        macros.append("%s! %s" % (m.group(1), args_ if len(args_) <= 160 else "#" + _hl.sha256(args_.encode()).hexdigest()[:16]))
+    cfgs = []
+    for m in re.finditer(r"#!?\[\s*cfg(?:_attr)?\b|\bcfg!\s*\(", txt):
+        j_ = txt.index("[", m.start()) if txt[m.start()] == "#" else m.end() - 1
+        try: cfgs.append(norm(txt[m.start():j_] + _bal(txt, j_, txt[j_], "]" if txt[j_] == "[" else ")")))
+        except Exception: cfgs.append("?")
+    inv = {"trait_impls": impls, "use_and_mod": uses, "reset_mut_overrides": len(re.findall(r"\bfn\s+reset_mut\b", txt)), "entry_fns": sorted(entry), "debug_asserts": dbg,
+           "macros": sorted(macros), "cfg": sorted(cfgs)}
     if whole_text:
         import hashlib
         inv["text_sha256"] = hashlib.sha256(norm(txt).encode()).hexdigest()
@@ -1112,7 +1159,14 @@ def build_inventory():
     return inv
 def files_of(pid):
     fs = {e_["file"] for e_ in ENTRIES.get(pid, [])} | {a_["file"] for a_ in ASSERTS.get(pid, []) if a_.get("file")}
-    return sorted(f_ for f_ in fs if f_.startswith(REPO) and f_.endswith(".rs"))
+    fs = {f_ for f_ in fs if f_.startswith(REPO) and f_.endswith(".rs")}
+    for f_ in sorted(fs):       # the module roots above a translated file (classify.rs above classify/slopes.rs): items and macros there
+        d_ = os.path.dirname(f_)   # can add impls and inherent methods to the types of the file
+        while os.path.basename(d_) != "src" and len(d_) > len(REPO):
+            for cand in (d_ + ".rs", os.path.join(d_, "mod.rs")):
+                if os.path.isfile(cand): fs.add(cand)
+            d_ = os.path.dirname(d_)
+    return sorted(fs)
 def write_inventory():
     import json
     inv = {}
@@ -1120,19 +1174,26 @@ def write_inventory():
         for f_ in files_of(pid): inv[f_[len(REPO):]] = file_inventory(f_)
     for f_ in TRAITS_FILES: inv[f_[len(REPO):]] = file_inventory(f_, whole_text=True)
     inv["/build"] = build_inventory()
+    eff = {}
+    for pid in sorted(ENTRIES):
+        for ent in ENTRIES[pid]:
+            translate_entry(ent); eff[pid + "/" + ent["name"]] = sorted(ent.get("_effects") or [])
+    inv["/effects"] = eff
     json.dump(inv, open(INVENTORY_FILE, "w"), indent=0, sort_keys=True)
     print("inventory of %d files written to %s" % (len(inv), INVENTORY_FILE))
+EFFECTS = {}
 def inventory_asserts():
     import json
     if not os.path.exists(INVENTORY_FILE): return
     inv = json.load(open(INVENTORY_FILE))
+    EFFECTS.update(inv.get("/effects") or {})
     for pid in sorted(set(ENTRIES) | set(ASSERTS)):
         ASSERTS.setdefault(pid, []).append(dict(name="build_configuration", file=REPO + "/Cargo.toml", build=inv.get("/build"),
             message="the build configuration differs from the audited one (workspace manifest sections, a crate's [dependencies]/[features], the module structure / feature gates / re-exports of a crate root, or a new .cargo/config, rust-toolchain or build.rs)"))
         for f_ in files_of(pid) + TRAITS_FILES:
             rel = f_[len(REPO):]
             ASSERTS.setdefault(pid, []).append(dict(name="api_surface_" + rel.replace("/crates/", "").replace("/src/", "_").replace("/", "_").replace(".rs", ""),
-                                                     file=f_, inventory=inv.get(rel), message="the trait impls / entry-point functions / imports / debug assertions of %s differ from the audited inventory" % rel))
+                                                     file=f_, inventory=inv.get(rel), message="the trait impls / entry-point functions / imports / debug assertions / macros / cfg attributes of %s differ from the audited inventory" % rel))
 inventory_asserts()
 
 # ---- constants compiled into macro invocations ---------------------------------------------------------
@@ -1262,6 +1323,7 @@ def run_case(ent, case, body_ast, params_txt, assume=None):
     if selfv[0] == "struct" and "__sub" not in selfv[1]:
         d = dict(selfv[1]); d["__sub"] = ("mark", ent.get("cls") or ("own:" + ent["name"])); selfv = ("struct", d)
     env.vars["self"] = selfv
+    sym.self0 = [selfv]
     src_names = sig_names(params_txt) if not ent.get("select") else list(ent["params"].keys())
     if len(src_names) != len(ent["params"]): raise Unsupported("the method takes %d parameters (%s), %d expected" % (len(src_names), " ".join(src_names), len(ent["params"])))
     for (name, val), sname in zip(ent["params"].items(), src_names):
@@ -1363,12 +1425,19 @@ def translate_entry(ent):
     text = ["(* generated by translator/bodies.py from %s (%s::%s) -- do not edit *)\n" % (ent["file"], ent["impl"], ent["fn"]),
             "From Coq Require Import NArith List.\nImport ListNotations.\nFrom Signalo Require Import Base.Arith Base.Opt Base.Machine Model.Generic %s.\n%s" % (ent.get("imports", ""), ent.get("preamble", ""))]
     count = 0
+    eff = ent["_effects"] = set()
+    def note(sym_, selfv_, ret_):
+        eff.update(sym_.effects)
+        # which value is the clone only matters for the pass-through components (sources, pipes, the caching wrappers): they hand on
+        # the caller's items themselves; the numeric filters compute new values from theirs
+        if ent.get("pid") in ("C01", "C10") or ent["name"].startswith("cache_") or ent["name"].startswith("unit_"):
+          eff.update("the clone (not the original) ends up at " + p_ for p_ in _R.clone_paths(ret_, "ret", []) + _R.clone_paths(selfv_, "self", []))
     for i, case in enumerate(ent["cases"]):
         if "lhs_self_template" in case: case = dict(case, lhs="(%s)" % fill2(case["lhs_self_template"], case["self"], ("unit",)))
         if not ent.get("split"):
             sym, selfv, ret = run_case(ent, case, ast, params_txt)
             t, k = lemma_text(ent, i, case, sym, selfv, ret)
-            text.append(t); count += k
+            text.append(t); count += k; note(sym, selfv, ret)
             continue
         # path-splitting: one lemma per execution path; the branch outcomes are hypotheses of the lemma
         from rs2coq import NeedAssumption, Panics
@@ -1387,7 +1456,7 @@ def translate_entry(ent):
                 text.append(t); count += k; npaths += 1
                 continue
             t, k = lemma_text(ent, "%d_p%s" % (i, "".join("t" if b else "f" for b in vec) or "0"), case, sym, selfv, ret)
-            text.append(t); count += k; npaths += 1
+            text.append(t); count += k; npaths += 1; note(sym, selfv, ret)
             if npaths > 200: raise Unsupported("more than 200 paths")
     return "".join(text), count
 
@@ -1413,6 +1482,17 @@ def regenerate(pid, ROOT, BUILD):
         open(f, "w").write(text)
         files.append((name, f, count))
         info["bodies"][name] = count
+        # effect signature (source assertion): which of the returned / stored values is a clone, and which receiver fields are
+        # already written when an abstract component (that may panic) is called -- must be the audited one
+        aud = EFFECTS.get(pid + "/" + name)
+        cur = sorted(ent.get("_effects") or [])
+        info["obligations"] += 1
+        if aud is not None and cur == aud: info["discharged"] += 1
+        else:
+            info["failed"].append(name + "_effects")
+            info.setdefault("logs", {})[name + "_effects"] = "source assertion failed: the effect signature of %s::%s differs from the audited one: now [%s], audited [%s]" % (
+                ent["impl"], ent["fn"], "; ".join(cur), "no record" if aud is None else "; ".join(aud))
+        info["bodies"][name + "_effects"] = "assertion" if aud is not None and cur == aud else "assertion FAILED"
     for c in CONSTS.get(pid, []):
         try:
             import tables
@@ -1443,8 +1523,8 @@ def regenerate(pid, ROOT, BUILD):
                 if not ok_inv and a["inventory"] is not None:
                     diff_ = []
                     if cur_.get("text_sha256") != a["inventory"].get("text_sha256"): diff_.append("the text of this file of the traits crate changed")
-                    for k_ in ("trait_impls", "use_and_mod", "entry_fns", "debug_asserts"):
-                        diff_ += ["+ " + x_ for x_ in cur_[k_] if x_ not in a["inventory"][k_]] + ["- " + x_ for x_ in a["inventory"][k_] if x_ not in cur_[k_]]
+                    for k_ in ("trait_impls", "use_and_mod", "entry_fns", "debug_asserts", "macros", "cfg"):
+                        diff_ += ["+ " + x_ for x_ in cur_.get(k_, []) if x_ not in a["inventory"].get(k_, [])] + ["- " + x_ for x_ in a["inventory"].get(k_, []) if x_ not in cur_.get(k_, [])]
                     if cur_["reset_mut_overrides"] != a["inventory"]["reset_mut_overrides"]: diff_.append("fn reset_mut overrides: %d (audited: %d)" % (cur_["reset_mut_overrides"], a["inventory"]["reset_mut_overrides"]))
                     a = dict(a, message=a["message"] + ": " + " | ".join(diff_)[:600])
             else: ok_inv = True
